@@ -123,6 +123,21 @@ def gen_arg(rng, vec, ang):
         return d, f"Dimension {d}", "dimension"
     if r < 0.9:
         d = dimension_from_vec(vec, ang, rng)
+        k = rng.random()
+        if k < 0.4:
+            return Symbol("x", d), f"Symbol(dim={d})", "dimension-symbol"
+        # the other kinds of dimensioned objects the decorator reads through `.dimension`
+        from symplyphysics import Function, IndexedSymbol, QuantityVector  # pylint: disable=import-outside-toplevel
+        from symplyphysics.core.operations.symbolic import Average, FiniteDifference  # pylint: disable=import-outside-toplevel
+        if k < 0.55:
+            return rng.choice([Average, FiniteDifference])(Symbol("x", d)), f"wrapper of Symbol(dim={d})", "dimension-symbol"
+        if k < 0.7:
+            return Function("f", [Symbol("t")], d), f"Function(dim={d})", "dimension-symbol"
+        if k < 0.8:
+            return IndexedSymbol("x", dimension=d), f"IndexedSymbol(dim={d})", "dimension-symbol"
+        if ang == 0:
+            e = mag * unit_expr_from_vec(vec, 0, rng)
+            return QuantityVector([Quantity(e), Quantity(2 * e)]), f"QuantityVector of {e}", "dimension-symbol"
         return Symbol("x", d), f"Symbol(dim={d})", "dimension-symbol"
     if r < 0.95:
         e = mag * unit_expr_from_vec(vec, ang, rng)
@@ -140,7 +155,16 @@ def gen_expected(rng, vec, ang):
         return d, f"Dimension {d}"
     if r < 0.75:
         d = dimension_from_vec(vec, ang, rng)
-        return Symbol("p", d), f"Symbol(dim={d})"
+        k = rng.random()
+        if k < 0.5:
+            return Symbol("p", d), f"Symbol(dim={d})"
+        from symplyphysics import Function, IndexedSymbol  # pylint: disable=import-outside-toplevel
+        from symplyphysics.core.operations.symbolic import Average  # pylint: disable=import-outside-toplevel
+        if k < 0.7:
+            return Function("g", [Symbol("t")], d), f"Function(dim={d})"
+        if k < 0.85:
+            return IndexedSymbol("p", dimension=d), f"IndexedSymbol(dim={d})"
+        return Average(Symbol("p", d)), f"Average(Symbol(dim={d}))"
     if r < 0.95:
         e = unit_expr_from_vec(vec, ang, rng)
         return e, f"unit expr {e}"
@@ -288,8 +312,9 @@ def stream_gate1(ctx, n):
             exp, xdesc = gen_expected(rng, xvec, xang)
             from symplyphysics.core.symbols.symbols import DimensionSymbol  # pylint: disable=import-outside-toplevel
             # the decorator layer turns dimensioned symbols into dimensions before calling the gate
-            a_in = arg.dimension if isinstance(arg, DimensionSymbol) and not isinstance(arg, SymQuantity) else arg
-            x_in = exp.dimension if isinstance(exp, DimensionSymbol) else exp
+            from symplyphysics.core.operations.symbolic import Symbolic  # pylint: disable=import-outside-toplevel
+            a_in = arg.dimension if isinstance(arg, (DimensionSymbol, Symbolic)) and not isinstance(arg, SymQuantity) else arg
+            x_in = exp.dimension if isinstance(exp, (DimensionSymbol, Symbolic)) else exp
             lit = f"({garg_lit(arg)}, {gexp_lit(exp)}"
         except qx.Unsupported:
             continue
